@@ -408,6 +408,8 @@ class Interp:
         v = self.eval(e["e"])
         op = e["op"]
         if op == "*":
+            if isinstance(v, tuple) and v[:1] == ("slotref",):
+                return v[1][v[2]]          # a `&mut V` into a map slot (entry().or_insert(..))
             return v
         if op == "!":
             if isinstance(v, bool):
@@ -526,6 +528,10 @@ class Interp:
             self.assign(target["p"], v)
             return
         if target["k"] == "un" and target["op"] == "*":
+            cur = self.eval(target["e"])
+            if isinstance(cur, tuple) and cur[:1] == ("slotref",):
+                cur[1][cur[2]] = v
+                return
             return self._store(target["e"], v)
         if target["k"] == "field":
             s = target.get("s")
@@ -649,6 +655,10 @@ class Interp:
                 finally:
                     self.scopes.pop()
             return True
+        if getattr(self, "string_places", False) and name in ("format", "write", "writeln"):
+            r = self._format_macro(name, e)
+            if r is not NotImplemented:
+                return r
         if self.on_call:
             args = [self.eval(a) for a in e.get("args") or []] if name not in ("format", "write", "writeln", "println", "eprintln", "debug_assert", "debug_assert_eq") else []
             r = self.on_call("macro", name, e, args, None)
@@ -668,6 +678,45 @@ class Interp:
                         m.append(copy.deepcopy(el))
             return m
         return OPAQUE
+
+    def _format_macro(self, name, e):
+        """format!/write!/writeln! with a literal format string of plain `{}` placeholders and string / integer arguments"""
+        a = list(e.get("args") or [])
+        dest = a.pop(0) if name in ("write", "writeln") and a else None
+        if not a or a[0].get("k") != "lit" or a[0].get("t") != "str":
+            return NotImplemented
+        fmt = a[0]["v"]
+        vals = []
+        for x in a[1:]:
+            v = self.eval(x)
+            sv = _strval(v)
+            if sv is None and isinstance(v, int) and not isinstance(v, bool):
+                sv = str(v)
+            if sv is None and isinstance(v, MutList) and getattr(v, "kind", "") == "str":
+                sv = "".join(c[1] if isinstance(c, tuple) else str(c) for c in v)
+            if sv is None:
+                return NotImplemented
+            vals.append(sv)
+        parts = fmt.replace("{{", "\x00").replace("}}", "\x01").split("{}")
+        if len(parts) - 1 != len(vals) or "{" in "".join(parts):
+            return NotImplemented
+        out = parts[0]
+        for p_, v_ in zip(parts[1:], vals):
+            out += v_ + p_
+        out = out.replace("\x00", "{").replace("\x01", "}") + ("\n" if name == "writeln" else "")
+        if dest is None:
+            return ("str", out)
+        cur = self.eval(dest)
+        if isinstance(cur, MutList) and getattr(cur, "kind", "") == "str":
+            cur.append(("str", out))
+            return ("Ok", ("tuple", []))
+        if _strval(cur) is not None:
+            tgt = dest
+            while tgt["k"] in ("ref", "paren"):
+                tgt = tgt["e"]
+            self._store(tgt, ("str", _strval(cur) + out))
+            return ("Ok", ("tuple", []))
+        return NotImplemented
 
     def e_call(self, e):
         global CURRENT
@@ -749,6 +798,7 @@ class Interp:
         sub.resolve_fn = getattr(self, "resolve_fn", None)
         sub.strict_try = getattr(self, "strict_try", False)
         sub.fn_items = getattr(self, "fn_items", None)
+        sub.string_places = getattr(self, "string_places", False)
         sub._inline_depth = depth + 1
         try:
             return sub.block(fnode["body"])
@@ -834,7 +884,10 @@ class Interp:
             if m == "or_insert" and args:
                 if recv[2] not in recv[1]:
                     recv[1][recv[2]] = args[0]
-                return recv[1][recv[2]]
+                cur = recv[1][recv[2]]
+                if isinstance(cur, int) and not isinstance(cur, bool):
+                    return ("slotref", recv[1], recv[2])     # a counter updated through the reference (`*count += 1`)
+                return cur
             if m == "or_default":
                 return recv[1].setdefault(recv[2], OPAQUE)
         if m in ("iter", "into_iter", "iter_mut") and isinstance(recv, tuple) and recv[0] in ("Some", "None") and len(recv) <= 2 and not e["a"]:
@@ -1386,6 +1439,10 @@ class Interp:
                 and recv[1].split("::")[-2:-1] == ["Value"] and not e["a"]:
             # serde_json::Value / the crate's CBOR Value: kind predicates
             return recv[1].split("::")[-1] in VALUE_KIND_PREDICATES[m]
+        if getattr(self, "string_places", False) and m in ("push_str", "push") and isinstance(recv, tuple) and recv[:1] == ("str",) and len(args) == 1 \
+                and _strval(args[0]) is not None and e["r"]["k"] in ("field", "path"):
+            self._store(e["r"], ("str", recv[1] + _strval(args[0])))
+            return ("tuple", [])
         if isinstance(recv, tuple) and recv and recv[0] in ("Some", "None", "Ok", "Err") and m in MUTATING_OPTION_METHODS:
             raise Unknown("method .%s() writes through an Option/Result place and is not modelled here" % m)
         if isinstance(recv, (MutList, PyMap)) and m not in PURE_CONTAINER_METHODS:
